@@ -36,6 +36,12 @@ CHECKS = {
  "C19": dict(level=MC, design="2/C19", technique="symbolic two-call histories on the real cached reader/writer closures with symbolic fault index and structural frame snapshots at every stream call",
    text="Inductive step from an arbitrary history: call 1 (symbolic instance; successful, OSError at the k-th write/read with k symbolic, or truncated source) then call 2 with an independent symbolic instance must yield the reference bytes and decode back exactly, and a structural snapshot of everything reachable from the cached closures and kio.serial module globals must be unchanged at every stream call and after each call. Construction determinism and non-interference of other classes are finite checks.",
    note="Thread schedules are NOT explored: claimed by reduction only (no shared state is written, construction is deterministic, functools.cache trusted). Bounds: one prior call (inductive), shapes to the recorded depth."),
+ "C08": dict(level=MC, design="2/C08", technique="symbolic execution of codegen.header_schema on all integer keys/versions/flexibility ranges; z3 search over the extracted class-fact table; symbolic execution of kio.index inverse maps with hash-fork dict lookups",
+   text="(i) the generator's header rule runs on solver variables for api key, version and flexibleVersions bounds and is compared with the Kafka rule stated in the property; (ii) the facts (type, key, version, flexible, header class) of all 646 payload classes are asserted in z3 and the solver searches for a row breaking the rule or a request/response pair differing in key or flexibility; (iii) load_response_from_request/load_request_from_response run with symbolic version (and symbolic key in the gaps between table keys) and must return the class found by an independent package walk, compose to the identity, and raise only the documented errors.",
+   note="The shipped-class part is a finite table where the solver is only a search procedure. Dict lookups by symbolic integer use the hash-hint rule (A2). Non-int keys/versions are outside."),
+ "C09": dict(level=MC, design="2/C09", technique="symbolic execution of the real kio.index lookup functions with symbolic version/key (hash-fork dict lookups) against an independent package walk; z3 search over the finite index tables",
+   text="Every load_* function runs for every table key concretely and for every gap between table keys with a symbolic key, with the version symbolic over int16 and every EntityType member; each resolving path must return exactly the module/class found by walking the package directory, every other path must raise UnknownAPIKey iff the key is unknown, else UnknownEntity. Bijection of api_key_map, completeness and resolvability of schema_name_map are solver queries over the finite tables.",
+   note="Names: all known plus six near-miss strings; arbitrary strings and non-int arguments are outside. Hash-hint rule (A2)."),
 }
 
 def cmd(i, tier):
